@@ -68,6 +68,8 @@ struct Shared {
     /// action the next invoked child returns
     script: Option<PostAction>,
     invoked: Vec<usize>,
+    /// children whose process_events was called at all
+    visited: Vec<usize>,
 }
 
 struct Mock {
@@ -117,6 +119,8 @@ impl EventSource for Mock {
     {
         let act = {
             let mut sh = self.sh.borrow_mut();
+            let id = self.id;
+            sh.visited.push(id);
             if sh.mocks[self.id].token != Some(token) {
                 return Ok(PostAction::Continue);
             }
@@ -262,10 +266,24 @@ fn run_mock(poll: &mut Poll, run: &MockRun, _max_children: usize) -> Outcome {
                     .unwrap_or_else(|| calloop::verif::token_factory(0, 0).token());
                 sh.borrow_mut().script = Some(act);
                 sh.borrow_mut().invoked.clear();
+                sh.borrow_mut().visited.clear();
                 let mut cb_ids = Vec::new();
                 let ret = t.process_events(Readiness { readable: true, writable: false, error: false }, tok, |id, _| cb_ids.push(id));
                 sh.borrow_mut().script = None;
                 let invoked = sh.borrow().invoked.clone();
+                let visited = sh.borrow().visited.clone();
+                for id in &visited {
+                    // an event is only ever handed to the current, kept, registered child
+                    let reg = sh.borrow().mocks[*id].registered;
+                    let ok = model.preg && model.cur == Some(*id) && model.mode == CMode::Kept && !model.removal_pending && reg;
+                    if !ok && !invoked.contains(id) {
+                        push(
+                            "only_current_forwards",
+                            "event-handed-to-child-that-is-not-current-kept-and-registered",
+                            format!("process_events of child #{} was called (registered {}) while the current kept child is {:?} ({:?}, parent registered {})", id, reg, model.cur, model.mode, model.preg),
+                        );
+                    }
+                }
                 match &ret {
                     Ok(PostAction::Continue) | Ok(PostAction::Reregister) => {}
                     Ok(other) => push("returns_continue_or_reregister", "other-action", format!("process_events returned {:?}", other)),
